@@ -317,6 +317,8 @@ def run(idx: ProgramIndex, rep: Report, tier: str):
     evaluation_is_pure(idx, rep)
     same_points_same_matrix(idx, rep)
     exact_test_prior(idx, rep)
+    grid_product_structure(idx, rep)
+    wrappers_and_member_terms(idx, rep)
 
 
 # ---- C09-5: one enumeration order of the grid points for every producer and consumer ---------------------------------------
@@ -742,3 +744,98 @@ def exact_test_prior(idx: ProgramIndex, rep: Report):
                 "the substitution also depends on `%s`: when that is false the test prior stays the Nystrom block Q** and the predictive covariance is Q** - Q*f (Qff + s2 I)^-1 Qf* instead of the SGPR predictive equation" % " ".join(src(other[0]).split())[:60], {})
     if n == 0:
         raise AnalysisError("C09-8: the base-kernel substitution in SGPRPredictionStrategy.exact_prediction was not found (anchor vanished)")
+
+
+# ---- C09-9 ---------------------------------------------------------------------------------------------------------
+def grid_product_structure(idx: ProgramIndex, rep: Report):
+    """GridKernel evaluates the base kernel one input dimension at a time (last_dim_is_batch=True) and returns the Kronecker product of
+    the d one-dimensional matrices.  That is the kernel matrix on the grid only for kernels that factorise over the input dimensions,
+    k(x, x') = prod_i k_i(x_i, x'_i) (RBF); for Matern, RQ, ... - also stationary - it is a different function.  The code must therefore test
+    for the product structure, not only for stationarity."""
+    rep.rule("C09-9", "the Kronecker-over-dimensions shortcut of GridKernel (base kernel evaluated per input dimension, matrices combined by a Kronecker product) is taken only for base kernels known to factorise over the input dimensions")
+    G = idx.find_class("GridKernel")
+    fw = idx.method(G, "forward", own=True)
+    per_dim = [c for c in calls_in(fw.node) if chain(c.func) == "self.base_kernel" and any(k.arg == "last_dim_is_batch" and isinstance(k.value, ast.Constant) and k.value.value is True for k in c.keywords)]
+    kron = [c for c in calls_in(fw.node) if (chain(c.func) or "").split(".")[-1] == "KroneckerProductLinearOperator"]
+    if not per_dim or not kron:
+        raise AnalysisError("C09-9: GridKernel.forward no longer evaluates the base kernel per dimension and combines the results by a Kronecker product (anchor vanished)")
+    evidence = []
+    for m in G.methods.values():
+        for x in ast.walk(m.node):
+            if isinstance(x, ast.Call) and isinstance(x.func, ast.Name) and x.func.id == "isinstance" and len(x.args) == 2 and "base_kernel" in src(x.args[0]) and "RBF" in src(x.args[1]):
+                evidence.append("isinstance test at line %d" % x.lineno)
+            if isinstance(x, ast.Attribute) and any(w in x.attr for w in ("product_structure", "factorises", "factorizes", "separable", "is_product")):
+                evidence.append("attribute %s at line %d" % (x.attr, x.lineno))
+    ok = bool(evidence)
+    rep.add("C09-9", "%s:GridKernel.forward[Kronecker over input dimensions]" % G.module.name, "%s:%d" % (fw.module.relpath, kron[0].lineno), ok,
+            "guarded: %s" % ", ".join(evidence) if ok else
+            "the base kernel is evaluated once per input dimension (`%s`) and the d matrices are combined by KroneckerProductLinearOperator, with no test that the base kernel factorises over dimensions (only stationarity is required): GridKernel(MaternKernel(nu=1.5)) on its own 5 x 5 grid is 5.8e-2 from Matern(X, X), and a 2-d GridInterpolationKernel(Matern) does not converge as the grid is refined" % " ".join(src(per_dim[0]).split())[:70], {})
+    rep.floor("C09-9", "Kronecker-over-dimensions shortcuts", 1, 1)
+
+
+# ---- C09-10 --------------------------------------------------------------------------------------------------------
+NOT_SGPR_WRAPPERS = {"CylindricalKernel": "the multiplied member is a kernel over the one-dimensional radius, paired with a fixed angular kernel: not a place for an inducing-point kernel"}
+
+
+def wrappers_and_member_terms(idx: ProgramIndex, rep: Report):
+    """InducingPointKernel contributes the trace term of the Titsias bound as an added loss term, computed from ITS OWN K and Q.  A kernel
+    that wraps another kernel and multiplies its covariance (ScaleKernel: outputscale, MultitaskKernel: (x) task covariance) changes K - Q by
+    that factor; the member's loss term is collected by model.added_loss_terms() as it is.  A multiplying wrapper therefore has to
+    transform (or reject) the added loss terms of its member."""
+    rep.rule("C09-10", "a kernel that multiplies the covariance of a member kernel (scale, Kronecker with a task covariance) accounts for the member's added loss terms: the SGPR trace term of a wrapped InducingPointKernel carries the same factor")
+    K = idx.find_class("Kernel")
+    registers = [c for c in idx.subclasses(K) if any(isinstance(x, ast.Call) and isinstance(x.func, ast.Attribute) and x.func.attr == "register_added_loss_term" for m in c.methods.values() for x in ast.walk(m.node))]
+    if not registers:
+        raise AnalysisError("C09-10: no kernel registers an added loss term any more (anchor vanished)")
+    n = 0
+    for cls in sorted(idx.subclasses(K), key=lambda c: c.qualname):
+        fw = cls.methods.get("forward")
+        if fw is None:
+            continue
+        sn = fw.params[0]
+        # member kernels evaluated in forward
+        members = {}
+        for a in ast.walk(fw.node):
+            if isinstance(a, ast.Assign) and isinstance(a.targets[0], ast.Name):
+                for c in ast.walk(a.value):
+                    if isinstance(c, ast.Call):
+                        ch = chain(c.func) or ""
+                        if ch.startswith(sn + ".") and ("kernel" in ch or "covar_module" in ch) and ch.split(".")[-1] in ("forward",) or (ch.startswith(sn + ".") and ch.count(".") == 1 and ("kernel" in ch or "covar_module" in ch)):
+                            members[a.targets[0].id] = ch
+        if not members:
+            continue
+        # locals bound to (tuples of) such names are the member's result too
+        changed = True
+        while changed:
+            changed = False
+            for a in ast.walk(fw.node):
+                if not isinstance(a, ast.Assign):
+                    continue
+                pairs = []
+                t0 = a.targets[0]
+                if isinstance(t0, ast.Name) and isinstance(a.value, ast.Name):
+                    pairs.append((t0.id, a.value.id))
+                if isinstance(t0, ast.Tuple) and isinstance(a.value, ast.Tuple) and len(t0.elts) == len(a.value.elts):
+                    pairs += [(x.id, y.id) for x, y in zip(t0.elts, a.value.elts) if isinstance(x, ast.Name) and isinstance(y, ast.Name)]
+                for tgt, srcn in pairs:
+                    if srcn in members and tgt not in members:
+                        members[tgt] = members[srcn]
+                        changed = True
+        # is a member's result multiplied by something else?
+        mult = None
+        for x in ast.walk(fw.node):
+            if isinstance(x, ast.Call) and isinstance(x.func, ast.Attribute) and x.func.attr in ("mul", "mul_") and isinstance(x.func.value, ast.Name) and x.func.value.id in members:
+                mult = (members[x.func.value.id], src(x))
+            if isinstance(x, ast.Call) and (chain(x.func) or "").split(".")[-1] == "KroneckerProductLinearOperator" and any(isinstance(a_, ast.Name) and a_.id in members for a_ in x.args):
+                mult = ([members[a_.id] for a_ in x.args if isinstance(a_, ast.Name) and a_.id in members][0], src(x))
+        if mult is None:
+            continue
+        if cls.name in NOT_SGPR_WRAPPERS:
+            rep.observe("C09-10", "%s:%s.forward" % (cls.module.name, cls.qualname), fw.where, "not judged by table: %s" % NOT_SGPR_WRAPPERS[cls.name])
+            continue
+        n += 1
+        handles = any("added_loss" in src(x) for m in cls.methods.values() for x in ast.walk(m.node) if isinstance(x, (ast.Attribute, ast.Name)))
+        rep.add("C09-10", "%s:%s.forward[%s multiplied, member's added loss terms]" % (cls.module.name, cls.qualname, mult[0].replace(sn + ".", "")), fw.where, handles,
+                "the wrapper deals with the added loss terms of its member" if handles else
+                "`%s` multiplies the covariance of %s, but an added loss term registered by that member (%s: the trace term -1/(2 s2) tr(K - Q)) reaches the objective without the factor: Kronecker multitask SGPR (MultitaskKernel(InducingPointKernel), the library's own example) optimises -34.386 where the Titsias bound is -42.440 (= the bound with B removed from the trace term, to 1e-14)" % (" ".join(mult[1].split())[:60], mult[0], ", ".join(c.name for c in registers)), {})
+    rep.floor("C09-10", "kernels that multiply a member's covariance", n, 2)
